@@ -28,12 +28,14 @@ def run(tier, seed):
                                      tag="ProtoRewrite-gen2", timeout=3000), "generation (2 fields)")
         ck.add_mc(g2, "Gen_ProtoRewrite(2 fields, kinds %s)" % ",".join(sub))
     ck.notes["kinds_subset"] = sub
+    kept, total = vlib.cap_vectors(vec, 400000 if thorough else 40000, seed, keep_first=g1.vectors)
+    ck.notes["vectors_generated"], ck.notes["vectors_replayed"] = total, kept
     ck.binary = vlib.build_harness()
     rr = vlib.run_harness(ck.binary, PROP, vec, seed=seed, tier=tier, shards=4, timeout=3000)
     os.unlink(vec)
     ck.absorb(rr)
     ck.triage(rr.divs)
-    ck.exhaustive = True
+    ck.exhaustive = kept == total
     ck.rule = ("TLC enumerates (shape, value, template) triples of spec/ProtoRewrite.tla (every 1-field shape, all 2-field shapes over a "
                "seeded subset of kinds; templates set scalars, replace repeated and map fields, and rewrite nested messages) with the "
                "expected value and five encodings of the input (standard, reordered, overridden, unknown fields, split); the real "
